@@ -58,7 +58,7 @@ def ENCODED():
 def cases(tier, seed):
     out = [f"data/{k}/{e}" for k in ("daily", "hourly") for e in ("elec", "gas")] + ["predict/frame", "predict/history", "predict/billing-agg"]
     out += [f"gate/{f}" for f in ("daily", "billing", "hourly")] + ["gate/hourly-predict"]
-    out += [f"series/{fam}/{role}" for fam in ("daily", "billing") for role in ("baseline", "reporting")] + ["accessor/billing_df", "hourly-data/ctor", "interleave/daily", "interleave/billing", "refit/daily", "refit/billing", "hourly-model/state", "caltrack/state"]
+    out += [f"series/{fam}/{role}" for fam in ("daily", "billing") for role in ("baseline", "reporting")] + ["accessor/billing_df", "hourly-data/ctor", "interleave/daily", "interleave/billing", "refit/daily", "refit/billing", "hourly-model/state", "caltrack/state", "legacy20/history"]
     return out
 
 
@@ -577,6 +577,72 @@ def run_caltrack_state(case):
     case.sample(dict(family="CalTRACK hourly", histories=len(paths)))
 
 
+LEGACY20 = {"model_type": "cdd_hdd", "model_params": {"intercept": 10.0, "beta_hdd": 1.5, "beta_cdd": 0.8, "heating_balance_point": 55.0, "cooling_balance_point": 68.0}}
+
+
+def legacy20_scenario(order, family):
+    """a model read from a legacy (2.0) document predicts several reporting sets (different zones, with/without usage) on ONE
+    object: each outcome (prediction or refusal) is the one a freshly read object gives, and the object is unchanged"""
+    import logging
+    logging.disable(logging.CRITICAL)
+    from opendsm.eemeter.models.billing.data import BillingReportingData
+    from opendsm.eemeter.models.billing.model import BillingModel
+    from opendsm.eemeter.models.daily.data import DailyReportingData
+    Model, Data = (BillingModel, BillingReportingData) if family == "billing" else (dm.DailyModel, DailyReportingData)
+    sets = {}
+    for name, tz, n in (("utc-week", "UTC", 7), ("pacific-month", "US/Pacific", 30), ("utc-month", "UTC", 31), ("berlin-week", "Europe/Berlin", 7)):
+        idx = pd.date_range("2021-05-03", periods=n, freq="D", tz=tz)
+        sets[name] = pd.DataFrame({"temperature": 50.0 + 3.0 * (np.arange(n) % 9), "observed": 20.0 + np.arange(n) % 5}, index=idx)
+
+    def outcome(m, name):
+        try:
+            out = m.predict(Data(sets[name].copy(), is_electricity_data=True))
+            return ("frame", out["predicted"].to_numpy(dtype=float).tobytes())
+        except Exception as ex:
+            return ("raise", type(ex).__name__)
+
+    def state(m):
+        return (str(m.baseline_timezone), json.dumps(m.params.model_dump(), sort_keys=True, default=str), [w.qualified_name for w in m.warnings], [w.qualified_name for w in m.disqualification])
+    shared = Model.from_2_0_dict(json.loads(json.dumps(LEGACY20)))
+    s0 = state(shared)
+    pr = []
+    for name in order:
+        got, want = outcome(shared, name), outcome(Model.from_2_0_dict(json.loads(json.dumps(LEGACY20))), name)
+        if got != want:
+            pr.append(f"{name} after {order[:order.index(name)]}: {got[0]} {got[1] if got[0] == 'raise' else ''} on the shared object, {want[0]} {want[1] if want[0] == 'raise' else ''} on a fresh one")
+    if state(shared) != s0:
+        pr.append(f"predict changed the model object (baseline timezone {s0[0]} -> {state(shared)[0]})")
+    return pr
+
+
+def replay_legacy20(inp):
+    pr = legacy20_scenario(inp["order"], inp["family"])
+    return bool(pr), "; ".join(pr[:3])
+
+
+def run_legacy20(case):
+    case.inputs = []
+    names = ["utc-week", "pacific-month", "utc-month", "berlin-week"]
+
+    def run():
+        first = F.choose("first", names)
+        second = F.choose("second", [n for n in names])
+        family = "daily"  # BillingModel.from_2_0_dict cannot be called at all (its constructor takes no `model` argument): nothing to check
+        order = [first] + ([second] if second != first else []) + [n for n in names if n not in (first, second)][:1]
+        return dict(order=order, family=family), legacy20_scenario(order, family)
+
+    paths = case.explore(run)
+    for p in paths:
+        if p.outcome != "ret":
+            case.rep["harness_errors"].append(f"legacy-2.0 scenario raised {p.value!r}")
+            continue
+        cfg, pr = p.value
+        case.prove(p, not pr, "a model read from a legacy (2.0) document: predictions and refusals do not depend on what was predicted before; predict leaves the object unchanged",
+                   replay=("legacy20", (lambda c: lambda mdl: dict(c))(cfg)))
+        case.regime("legacy (2.0) model predicting reporting sets of different zones")
+    case.sample(dict(entry="DailyModel/BillingModel.from_2_0_dict + predict histories", histories=len(paths)))
+
+
 def replay_interleave(inp):
     pr = interleave_scenario(inp["fam"], inp["poor_a"], inp["poor_b"], inp["predict_between"])
     return bool(pr), "; ".join(pr)
@@ -873,7 +939,7 @@ def run_hourly_predict(case):
     case.sample(dict(scenario="HourlyModel.fit then predict on GHI-carrying reporting data"))
 
 
-REPLAY = {"data": replay_data, "predict": replay_predict, "gate": replay_gate, "hp": replay_hp, "series": replay_series, "accessor": replay_accessor, "hourly-data": replay_hourly_data, "interleave": replay_interleave, "refit": replay_refit, "caltrack-state": replay_caltrack_state, "hourly-state": replay_hourly_state}
+REPLAY = {"data": replay_data, "predict": replay_predict, "gate": replay_gate, "hp": replay_hp, "series": replay_series, "accessor": replay_accessor, "hourly-data": replay_hourly_data, "interleave": replay_interleave, "refit": replay_refit, "legacy20": replay_legacy20, "caltrack-state": replay_caltrack_state, "hourly-state": replay_hourly_state}
 
 
 def run_case(case: Case, name: str):
@@ -890,6 +956,8 @@ def run_case(case: Case, name: str):
         return run_refit(case, parts[1])
     if parts[0] == "caltrack":
         return run_caltrack_state(case)
+    if parts[0] == "legacy20":
+        return run_legacy20(case)
     if parts[0] == "interleave":
         return run_interleave(case, parts[1])
     if parts[0] == "hourly-model":
